@@ -148,11 +148,11 @@ def _sampler_run(case, seed):
             snap["log_evidence"] = np.asarray(env.to_np(res.log_evidence)).copy()
     # did the kernel move anything?  (a final coordinate that is not one of the proposal's draws)
     handed = np.concatenate([h[0] for h in P.flow.handed]) if P.flow.handed else np.zeros((0, case["d"]))
-    w = env.width_of(res[0].x if isinstance(res, tuple) else res.x)
-    cast = np.float32 if w == "float32" else np.float64
-    hs = {tuple(r) for r in handed.astype(cast).astype(np.float64).tolist()}
     xs = np.asarray(snap["x"], dtype=np.float64)
-    snap_moved = any(tuple(r) not in hs for r in xs.tolist())
+    # a kernel move is of the order of the population spread; a round trip through the preconditioning map only perturbs the last digits
+    scale = (handed.std(0) + 1e-12) if len(handed) else np.ones(case["d"])
+    dist = np.abs(xs[:, None, :] - handed[None, :, :]) / scale
+    snap_moved = bool((dist.max(-1).min(-1) > 1e-3).any()) if len(handed) else True
     _MOVED[id(gen)] = snap_moved
     return snap, gen
 
